@@ -341,7 +341,19 @@ func c08BuilderReuse(s *c08State, mk func() ast.Block) {
 		}
 		var acc ast.Block
 		var err error
-		if pi := lib.Try(func() { acc, err = lib.FillBlock(bb, content) }); pi != nil {
+		if k > 0 && len(bm.Facts) > 0 && r.Intn(2) == 0 {
+			// through AddBlock, with a fact in the call that the builder refuses as a duplicate of
+			// one it already holds: what was accepted before the refusal stays, nothing else changes
+			fresh := ast.P(fmt.Sprintf("via_addblock_%d", k), ast.Str(fmt.Sprintf("fresh_value_%d", k)))
+			pb := biscuit.ParsedBlock{Facts: []biscuit.Fact{fresh.LibFact(), bm.Facts[0].LibFact(), ast.P("never_reached", ast.Int(1)).LibFact()}}
+			if pi := lib.Try(func() { err = bb.AddBlock(pb) }); pi != nil {
+				c.Violate("add-panic/"+pi.Site, pi.Msg, s.wit(nil))
+				return
+			}
+			acc = ast.Block{Facts: []ast.Pred{fresh}}
+			content = acc
+			c.Count("addblock_with_refused_duplicate_after_build", 1)
+		} else if pi := lib.Try(func() { acc, err = lib.FillBlock(bb, content) }); pi != nil {
 			c.Violate("add-panic/"+pi.Site, pi.Msg, s.wit(nil))
 			return
 		}
@@ -421,6 +433,12 @@ func c08Run(c *core.C) {
 	}
 	if c.Idx%4 == 2 {
 		c08BuilderReuse(s, mk)
+		// a derived token holds what its parent held plus what its own caller put in, also when
+		// the parent came from hostile bytes (dangling symbol index; shared with C02)
+		ds := gen.NewScenario(r, 2, scenOpts)
+		if dt, err := buildScenarioToken(c.Seed, fmt.Sprintf("c08-dang-%d", c.Idx), ds.Blocks); err == nil {
+			c02Dangling(c, dt, ds.Auth)
+		}
 		return
 	}
 	nOps := 20 + r.Intn(25)
